@@ -1,6 +1,7 @@
 import SkgVerif.Model.Ownership
 import SkgVerif.Gen.Tables
 import Mathlib.Tactic
+import SkgVerif.Props.Transcribed.C18
 /-!
 # C18 — results are reproducible, instances isolated, caller arrays never modified
 
